@@ -499,7 +499,7 @@ func (s *storageRunner) httpStep(r *runner, f []string, line string) bool {
 		}
 		r.resolve("S http %d %s %s", now, method, hexName(u.Path))
 		r.reply("%s", res)
-	case "scrape":
+	case "scrape", "scrapeslow":
 		if s.http == nil || s.ev == nil || s.st == nil {
 			r.resolve("%s", line)
 			r.reply("bad-op")
@@ -509,10 +509,34 @@ func (s *storageRunner) httpStep(r *runner, f []string, line string) bool {
 		s.freezeCache()
 		req := httptest.NewRequest("GET", "http://burrow.test/metrics", http.NoBody)
 		rec := httptest.NewRecorder()
+		var released time.Time
+		if f[1] == "scrapeslow" {
+			// S scrapeslow: the same scrape while the storage subsystem takes no request for 3.3 s (its workers are busy):
+			// the scrape waits and then reports what storage holds — it is resolved as a plain scrape
+			if s.hold == nil {
+				s.hold = make(chan struct{})
+			}
+			wait := 3300 * time.Millisecond
+			if ns := time.Now().Add(wait).Nanosecond(); ns > 880000000 || ns < 30000000 {
+				wait += 170 * time.Millisecond // end the wait away from a second boundary
+			}
+			// the wait is not cache time
+			s.ev.AgeCache(-wait)
+			s.evRef = s.evRef.Add(wait)
+			s.app.StorageChannel <- nil
+			go func() {
+				time.Sleep(wait)
+				released = time.Now()
+				s.hold <- struct{}{}
+			}()
+		}
 		res := guard(func() string {
 			s.http.handler.ServeHTTP(rec, req)
 			return fmt.Sprintf("code=%d series=%s", rec.Code, parsePromSeries(rec.Body.String()))
 		})
+		if !released.IsZero() {
+			now = released.Unix()
+		}
 		time.Sleep(3 * time.Millisecond) // background refreshes of cached errors
 		if time.Now().Unix() != now {
 			res += " tick"
@@ -751,7 +775,11 @@ func genHTTP(g *gen) {
 		}
 		// the frame: everything is read once more at the end, and the metrics scraped after the cache lifetime
 		g.emit("S cage 30008")
-		g.emit("S scrape")
+		if i%40 == 5 {
+			g.emit("S scrapeslow")
+		} else {
+			g.emit("S scrape")
+		}
 		for _, c := range clusters {
 			req("GET", "v3", "kafka", c, "consumer")
 			for _, t := range topics {
